@@ -84,6 +84,19 @@ Definition cv_scalar_ok (n : str) (v : json) : bool :=
     match json_as_i64 v with Some z => j_fits_i32 z | None => false end
   else if streq n rn_Float then
     json_is_f64 v ||
+    match v with JInt z => json_int_as_f64_abs_le_max_safe z | _ => false end
+  else if streq n rn_String then json_is_string v
+  else if streq n rn_Boolean then json_is_boolean v
+  else if streq n rn_ID then json_is_string v || json_is_i64 v || json_is_u64 v
+  else true.
+
+(* the scalar tests before the repair of the two boundary comparisons (Float: `f.abs() < MAX_SAFE_INT as f64`,
+   ID: `value.is_string() || value.is_i64()`); kept only for CoerceTheorems.c28_edge_old_refuted *)
+Definition cv_scalar_ok_old (n : str) (v : json) : bool :=
+  if streq n rn_Int then
+    match json_as_i64 v with Some z => j_fits_i32 z | None => false end
+  else if streq n rn_Float then
+    json_is_f64 v ||
     match v with JInt z => json_int_as_f64_abs_lt_max_safe z | _ => false end
   else if streq n rn_String then json_is_string v
   else if streq n rn_Boolean then json_is_boolean v
